@@ -3,6 +3,7 @@
 package cache
 
 import (
+	"context"
 	"time"
 
 	"github.com/miekg/dns"
@@ -58,4 +59,24 @@ func VerifC02WriteBack(c *Cache, proof *dns.Msg, subject, zone string, nsec3 boo
 	if proof.Rcode == dns.RcodeNameError {
 		c.store.RecordNXDomainCut(proof, subject, zone, cutUntil)
 	}
+}
+
+// VerifC02PrivateGet is the resolver-private cache route (Store.GetWithContext:
+// what answers the resolver's own DS / DNSKEY / NS-address sub-queries) under a
+// fresh request tree; it reports whether an exact entry exists for the question
+// and the deadline the lookup bound the request tree to (zero: unbounded).
+func VerifC02PrivateGet(c *Cache, req *dns.Msg) (msg *dns.Msg, ok bool, exact bool, bound time.Time) {
+	_, exact = c.store.Lookup(req)
+	var meta middleware.ResponseMeta
+	ctx := middleware.WithResponseMeta(context.Background(), &meta)
+	msg, ok = c.store.GetWithContext(ctx, req)
+	bound, _ = meta.Cut()
+	return msg, ok, exact, bound
+}
+
+// VerifC02LookupProofExpiry is Store.lookupDenialProofWithExpiry: the synthesised
+// answer together with the earliest deadline among the records it was built from.
+func VerifC02LookupProofExpiry(c *Cache, req *dns.Msg) (time.Time, bool) {
+	_, _, _, expires, ok := c.store.lookupDenialProofWithExpiry(req, nil)
+	return expires, ok
 }
